@@ -128,7 +128,7 @@ def parseMember (s : String) : Option Member :=
 inductive Cell where
   | v (x : Script.Val)
   | t (x : FilterSpec.STm)
-  | p (fs : List Frag)
+  | p (fromRoot : Bool) (fs : JV → List Frag)   -- a path operand being read: `@`/`$`, fragments given the root nested filters see
   | bad
 
 def opOfName (s : String) : Option Script.Op :=
@@ -153,17 +153,17 @@ def parseFlt (s : String) : Option Script.Flt :=
 /-- no regular expressions in the scripts of this family -/
 def noRx : Script.RxEngine := fun _ _ => none
 
-def pathFragTok (rest : String) (st : List Cell) : List Cell :=
+def pathFragTok (nest : Bool) (rest : String) (st : List Cell) : List Cell :=
   -- `rest` is the token without its leading dot
   let arg := (rest.drop 1).toString
   let app := fun (f : Frag) => match st with
-    | .p fs :: st' => Cell.p (fs ++ [f]) :: st'
+    | .p b fs :: st' => Cell.p b (fun r => fs r ++ [f]) :: st'
     | _ => [Cell.bad]
   if rest = "w" then app .wild
   else if rest = "d" then app .descent
   else if rest = "q" then
     match st with
-    | .t x :: .p fs :: st' => .p (fs ++ [FilterSpec.filterOf noRx x]) :: st'
+    | .t x :: .p b fs :: st' => .p b (fun r => fs r ++ [FilterSpec.filterOf noRx nest (some r) x]) :: st'
     | _ => [.bad]
   else if rest.startsWith "c" then
     match ofHex arg with
@@ -186,7 +186,7 @@ def pathFragTok (rest : String) (st : List Cell) : List Cell :=
     | _ => [.bad]
   else [.bad]
 
-def stepTok (st : List Cell) (tok : String) : List Cell :=
+def stepTok (nest : Bool) (st : List Cell) (tok : String) : List Cell :=
   let rest := (tok.drop 1).toString
   if tok = "n" then .v .null :: st
   else if tok = "t" then .v (.bool true) :: st
@@ -195,12 +195,13 @@ def stepTok (st : List Cell) (tok : String) : List Cell :=
     match st with
     | .v x :: st' => .t (.const x) :: st'
     | _ => [.bad]
-  else if tok = "@" then .p [] :: st
+  else if tok = "@" then .p false (fun _ => []) :: st
+  else if tok = "$" then .p true (fun _ => []) :: st
   else if tok = "p" then
     match st with
-    | .p fs :: st' => .t (.path fs) :: st'
+    | .p b fs :: st' => .t (.path b fs) :: st'
     | _ => [.bad]
-  else if tok.startsWith "." then pathFragTok rest st
+  else if tok.startsWith "." then pathFragTok nest rest st
   else if tok.startsWith "i" then
     match rest.toInt? with
     | some i => .v (.int i) :: st
@@ -223,15 +224,17 @@ def stepTok (st : List Cell) (tok : String) : List Cell :=
     | _, _ => [.bad]
   else [.bad]
 
-def parseScript (s : String) : Option FilterSpec.STm :=
-  match (s.splitOn " ").foldl (fun (st : List Cell) tok => match st with | [Cell.bad] => [Cell.bad] | _ => stepTok st tok) [] with
+def parseScript (nest : Bool) (s : String) : Option FilterSpec.STm :=
+  match (s.splitOn " ").foldl (fun (st : List Cell) tok => match st with | [Cell.bad] => [Cell.bad] | _ => stepTok nest st tok) [] with
   | [Cell.t x] => some x
   | _ => none
 
-def parseFrag (s : String) : Option Frag :=
+/-- `nest`, `root`: how the scripts of the path's filters are bound (see `FilterSpec`); `root = none`: every
+tested element is its own root -/
+def parseFrag (nest : Bool) (root : Option JV) (s : String) : Option Frag :=
   if s = "w" then some .wild
   else if s = "d" then some .descent
-  else if s.startsWith "q:" then (parseScript (s.drop 2).toString).map (FilterSpec.filterOf noRx)
+  else if s.startsWith "q:" then (parseScript nest (s.drop 2).toString).map (FilterSpec.filterOf noRx nest root)
   else
     match s.splitOn ":" with
     | ["c", hx] => (ofHex hx).map Frag.child
@@ -246,8 +249,8 @@ def parseFrag (s : String) : Option Frag :=
       some (.filter fun v => trues.contains v.render)
     | _ => none
 
-def parsePath (s : String) : Option (List Frag) :=
-  if s = "-" then some [] else (s.splitOn "/").mapM parseFrag
+def parsePath (nest : Bool) (root : Option JV) (s : String) : Option (List Frag) :=
+  if s = "-" then some [] else (s.splitOn "/").mapM (parseFrag nest root)
 
 def parseAK (s : String) : Option AK :=
   if s = "any" then some .any else if s = "gen" then some .gen else if s = "indexed" then some .indexed
@@ -268,12 +271,13 @@ def parseRep (s : String) : Option Rep :=
 def parseCfg (s : String) : Option Cfg :=
   if s = "P" then some Cfg.pinned
   else if s = "-" then some Cfg.fixed
-  else if s.toList.all fun c => "esncyowurlzmtfghda".toList.contains c then
+  else if s.toList.all fun c => "esncyowurlzmtfghdakpq".toList.contains c then
     some { innerEmptySlice := s.contains 'e', descentSiblings := s.contains 's', locNegEnd := s.contains 'n', locStartClamp := s.contains 'c', locEmptyArray := s.contains 'y', locateRoot := s.contains 'o',
            walkDescentNoSelf := s.contains 'w', nodesUnionNil := s.contains 'u', nodesFilterRev := s.contains 'r',
            firstNodeLast := s.contains 'l', nodesFilterNull := s.contains 'z', typedMapWild := s.contains 'm',
            typedObjFilter := s.contains 't', firstTypedSlice := s.contains 'f', firstTypedWildOne := s.contains 'g',
-           hasTypedMap := s.contains 'h', hasTypedDescent := s.contains 'd', walkTypedArray := s.contains 'a' }
+           hasTypedMap := s.contains 'h', hasTypedDescent := s.contains 'd', walkTypedArray := s.contains 'a',
+           nestedFilterRoot := s.contains 'k', locFilterRootNil := s.contains 'p', walkFilterRootSelf := s.contains 'q' }
   else none
 
 /-! ### answers -/
@@ -313,14 +317,26 @@ def cfgLetters (c : Cfg) : String :=
     ('y', c.locEmptyArray), ('o', c.locateRoot), ('w', c.walkDescentNoSelf), ('u', c.nodesUnionNil),
     ('r', c.nodesFilterRev), ('l', c.firstNodeLast), ('z', c.nodesFilterNull), ('m', c.typedMapWild),
     ('t', c.typedObjFilter), ('f', c.firstTypedSlice), ('g', c.firstTypedWildOne), ('h', c.hasTypedMap),
-    ('d', c.hasTypedDescent), ('a', c.walkTypedArray)].filter (·.2) |>.map (·.1))
+    ('d', c.hasTypedDescent), ('a', c.walkTypedArray), ('k', c.nestedFilterRoot), ('p', c.locFilterRootNil),
+    ('q', c.walkFilterRootSelf)].filter (·.2) |>.map (·.1))
+
+/-- the root the scripts of a query on `d` see in an evaluator (`none`: each tested element itself). The
+specification ops: the query argument. -/
+def rootFor (cfg : Cfg) (op : String) (d : JV) : Option JV :=
+  if op = "locate" && cfg.locFilterRootNil then some .null
+  else if op = "walk" && cfg.walkFilterRootSelf then none
+  else some d
 
 def handle : List String → String
   | ["pinned"] => cfgLetters Cfg.pinned    -- the harness asks which deviations the model of the current code has
   | [op, rep, flags, path, data] =>
-    match parseRep rep, parseCfg flags, parsePath path, parseJV data with
-    | some rep, some cfg, some x, some d => answer op cfg rep x d
-    | _, _, _, _ => "bad-op"
+    match parseRep rep, parseCfg flags, parseJV data with
+    | some rep, some cfg, some d =>
+      let isSpec := op = "spec" || op = "specrfc"
+      match parsePath (!isSpec && cfg.nestedFilterRoot) (if isSpec then some d else rootFor cfg op d) path with
+      | some x => answer op cfg rep x d
+      | none => "bad-op"
+    | _, _, _ => "bad-op"
   | _ => "bad-op"
 
 end OjgVerif.JPath
